@@ -331,3 +331,26 @@ fn c02_index_tuple_exact() {
     }
     std::mem::forget((r, t));
 }
+
+/// lovelace total of an output built from two values: the exact sum, or an error when it leaves u64
+/// (the repaired `try_aggregate_values`; the map of native assets stays empty: Coin values only)
+#[kani::proof]
+#[kani::unwind(4)]
+#[kani::stub(std::fmt::format, nofmt)]
+fn c02_aggregate_coin_exact() {
+    let x: u64 = kani::any();
+    let y: u64 = kani::any();
+    let r = hooks::try_aggregate_values([Value::Coin(x), Value::Coin(y)]);
+    match &r {
+        Ok(Value::Coin(v)) => {
+            assert!(*v as u128 == x as u128 + y as u128, "the lovelace total is the exact sum of the entries");
+            kani::cover!(x == 5 && y == 7, "ordinary amounts accepted");
+        }
+        Ok(_) => panic!("coin-only values aggregate to Coin"),
+        Err(_) => {
+            assert!(x as u128 + y as u128 > u64::MAX as u128, "a representable total is accepted");
+            kani::cover!(x == u64::MAX && y == 1, "overflow rejected");
+        }
+    }
+    std::mem::forget(r);
+}
